@@ -8,7 +8,7 @@ package main
 //	Launch/LaunchRsp     command processor port ToDriver (Recvd LaunchKernelReq / Send LaunchKernelRsp);
 //	                     the command a request belongs to comes from the driver's "req_out" task (parent = command)
 //	MapWG/WGDone         command processor port ToCUs (Send MapWGReq / Recvd WGCompletionMsg)
-//	FlushReq/FlushRsp, CopyReq/CopyRsp   command processor port ToDriver
+//	FlushReq/FlushRsp, CopyReq/CopyRsp   command processor port ToDriver (CopyReq when the request is taken from the port)
 //
 // All hooks run on the engine goroutine (serial engine), so the file order is the order of occurrence.
 
@@ -217,16 +217,21 @@ func (h *portHook) Func(ctx sim.HookCtx) {
 			t.byPkt[m.Packet] = id
 		case *protocol.FlushReq:
 			t.emit(map[string]interface{}{"e": "FlushReq", "g": h.g, "r": small(t.reqIDs, m.ID), "c": t.cmdOf(m.ID)})
-		case *protocol.MemCopyD2HReq:
-			t.emit(map[string]interface{}{"e": "CopyReq", "g": h.g, "dir": "d2h", "r": small(t.reqIDs, m.ID), "c": t.cmdOf(m.ID)})
-		case *protocol.MemCopyH2DReq:
-			t.emit(map[string]interface{}{"e": "CopyReq", "g": h.g, "dir": "h2d", "r": small(t.reqIDs, m.ID), "c": t.cmdOf(m.ID)})
 		case *protocol.WGCompletionMsg:
 			ms := []int{}
 			for _, r := range m.RspTo {
 				ms = append(ms, small(t.mapIDs, r))
 			}
 			t.emit(map[string]interface{}{"e": "WGDone", "g": h.g, "ms": ms})
+		}
+	case sim.HookPosPortMsgRetrieveIncoming:
+		// a copy request is logged when the command processor takes it (it leaves requests in the port while a flush is
+		// in progress), not when it is delivered
+		switch m := msg.(type) {
+		case *protocol.MemCopyD2HReq:
+			t.emit(map[string]interface{}{"e": "CopyReq", "g": h.g, "dir": "d2h", "r": small(t.reqIDs, m.ID), "c": t.cmdOf(m.ID)})
+		case *protocol.MemCopyH2DReq:
+			t.emit(map[string]interface{}{"e": "CopyReq", "g": h.g, "dir": "h2d", "r": small(t.reqIDs, m.ID), "c": t.cmdOf(m.ID)})
 		}
 	case sim.HookPosPortMsgSend:
 		switch m := msg.(type) {
